@@ -1,7 +1,8 @@
 /-
-  C01 (renderers other than HTML) — parse-and-render never raises with the Markdown, Jira and XWiki renderers.
+  C01 (renderers other than HTML) — parse-and-render never raises with the Markdown, Jira, XWiki and LaTeX renderers
+  (LaTeX: except the documented refusal).
 
-  Property theorems only; the proofs are in Proofs/MdTotal.lean and Proofs/ContribTotal.lean (which build on
+  Property theorems only; the proofs are in Proofs/MdTotal.lean, Proofs/ContribTotal.lean and Proofs/LatexTotal.lean (which build on
   Props/C01.lean, hence this second file).  Each is about the parser model (`Document.parse`, tied to the code by the
   doc / block.buffer / inline units) followed by the renderer's model (`Model/Markdown.lean`, `Model/Jira.lean`,
   `Model/XWiki.lean`, tied to the code by the md.render / jira.render / xwiki.render units), in which every Python
@@ -11,6 +12,7 @@
 -/
 import Mistletoe.Proofs.MdTotal
 import Mistletoe.Proofs.ContribTotal
+import Mistletoe.Proofs.LatexTotal
 namespace Mistletoe.Props.C01R
 open Mistletoe Mistletoe.Block Mistletoe.Lines
 
@@ -55,7 +57,26 @@ theorem C01_contrib_render_exact (d : Doc) :
     (Jira.render d).isOk = Mistletoe.Contrib.docOk false d ∧ (XWiki.render d).isOk = Mistletoe.Contrib.docOk true d :=
   ⟨Mistletoe.Contrib.jira_render_isOk d, Mistletoe.Contrib.xwiki_render_isOk d⟩
 
+/-- **Parse-and-render with the LaTeX renderer returns a string or the documented refusal, for every text**: with
+    the token lists the LaTeX renderer installs (regenerated from /repo) and enough gas, `Document(text)` returns a
+    document, and `Latex.renderRes` (the renderer model with every Python raise site made explicit: render-map
+    `KeyError`, `token.header` of a table, the align option, the `\verb` delimiter search) returns either the rendered
+    string or the refusal `RuntimeError('Unable to find delimiter for verb macro')`, the latter only when some inline
+    code of the document contains every candidate delimiter. -/
+theorem C01_latex_total_or_refusal (cfg : Document.Cfg) (hc : Config.latex = some cfg) (gas : Nat) (t : Str)
+    (hg : gasBound cfg.block (docBuf (normalize (.str t))) ≤ gas) :
+    ∃ d, Document.parse cfg gas t = .ok d ∧
+      (Latex.renderRes d = .ok (Latex.render d) ∨
+       (Latex.renderRes d = .err (.refusal 0) ∧ ∃ c ∈ Latex.codes d, Latex.UsesAllDelims c)) :=
+  Mistletoe.Props.C01.C01_latex_total cfg hc gas t hg
+
+/-- the only error values parse-and-render with the LaTeX renderer can return: `.fuel` (model gas) and the refusal -/
+theorem C01_latex_no_raise (cfg : Document.Cfg) (hc : Config.latex = some cfg) (gas : Nat) (t : Str) (e : Err)
+    (h : (Document.parse cfg gas t).bind Latex.renderRes = .err e) : e = .fuel ∨ e = .refusal 0 :=
+  Mistletoe.Props.C01.C01_latex_no_raise cfg hc gas t e h
+
 /-- the configurations exist: the regenerated lists are known to the model -/
-example : Config.markdown.isSome = true ∧ Config.jira.isSome = true ∧ Config.xwiki.isSome = true := by decide +kernel
+example : Config.markdown.isSome = true ∧ Config.jira.isSome = true ∧ Config.xwiki.isSome = true ∧ Config.latex.isSome = true := by
+  decide +kernel
 
 end Mistletoe.Props.C01R
